@@ -155,9 +155,9 @@ def auth_matrix(ctx):
     import aioquic.tls as T
     from vlib import endpoints as E, tlsbench as B, reftls as L
 
-    def client_vs_ref(name, leaf, server_name="localhost", ca="ca.pem", cv_key=None, expect_complete=False, c_suites=None, c_alpn=None, sh_kw=None, ee_kw=None, s_alpn=None, skip_cert=False, empty_cert=None):
+    def client_vs_ref(name, leaf, server_name="localhost", ca="ca.pem", cv_key=None, expect_complete=False, c_suites=None, c_alpn=None, sh_kw=None, ee_kw=None, s_alpn=None, skip_cert=False, empty_cert=None, verify=True):
         with E.pinned(("c03-auth", name)):
-            c = B.Ctx(True, server_name=server_name, ca=ca, cipher_suites=[T.CipherSuite(x) for x in c_suites] if c_suites else None, alpn=c_alpn)
+            c = B.Ctx(True, verify=verify, server_name=server_name, ca=ca, cipher_suites=[T.CipherSuite(x) for x in c_suites] if c_suites else None, alpn=c_alpn)
             s = B.ref_server(leaf_name=leaf, alpn=s_alpn, strict=False)
             s.receive_client_hello(c.feed(b"")["INITIAL"])
             err = None
@@ -200,6 +200,11 @@ def auth_matrix(ctx):
     client_vs_ref("cv-by-another-key", "ed25519", cv_key=E.load_key("client.key"))
     client_vs_ref("cv-by-another-key-rsa-leaf", "rsa", cv_key=E.load_key("leaf_p256.key"))
     client_vs_ref("chain-missing-intermediate", "chain3-noica")
+    # verify_mode CERT_OPTIONAL on a client validates like CERT_REQUIRED
+    client_vs_ref("control-cert-optional", "ed25519", verify="optional", expect_complete=True)
+    client_vs_ref("self-signed-cert-optional", "selfsigned", verify="optional")
+    client_vs_ref("foreign-ca-cert-optional", "foreign", verify="optional")
+    client_vs_ref("wrong-name-cert-optional", "wrongname", verify="optional")
     client_vs_ref("empty-certificate-list-no-verify", "ed25519", empty_cert="no-verify")
     client_vs_ref("empty-certificate-list-with-verify", "ed25519", empty_cert="with-verify")
     # a server that answers outside what the client is configured for shares no option with it
